@@ -28,7 +28,18 @@ MANIFEST = {
           'is an injective identifier of everything but the epoch (C07_content_id_injective; std++ Countable encode of the flattened view; Ctrl.v keeps content '
           'type N).  C07_never_older_broker, C07_converge_one_round_broker, C07_two_rounds_broker and C13_reconverge_broker (store restored from any snapshot with '
           'epoch_inv, recover_service with m >= every installed epoch of the listed proxies, then any ok_ops history; premise obtained from stays_above_general) are '
-          'therefore theorems about broker-model histories with no hypothesis on `served` left.  The model is tied to '
+          'therefore theorems about broker-model histories with no hypothesis on `served` left.  FAILURE DETECTION / HANDLING (Model/CtrlFail.v, '
+          'Proofs/CtrlProofsFail.v): an event system over the REAL broker model (Broker.add_failure / get_failures / replace_failed_proxy / add_proxy / step) in which any '
+          'coordinator reports any address at any time and as often as it likes, replace_proxy calls issued after a get_failures answer are delayed / dropped / duplicated, '
+          'proxies go down and come back, the clock ticks, proxies re-register, any other broker operation happens; plus ParFailureDetector / PingFailureDetector (three '
+          'PING attempts) / BrokerFailureReporter and ParFailureHandler / ReplaceNodeHandler compiled to those events under a scripted fault per call boundary.  '
+          'C07_fail_needs_quorum (every failover carried out was licensed by a get_failures answer on a store where the address was registered and at least quorum '
+          'pairwise DISTINCT reporters had each made an add_failure call for it less than ttl earlier; composes C18_quorum_distinct / C18_expired_discarded / '
+          'C18_failures_wf_step), C07_fail_single_reporter (reporters of an address fitting in a set smaller than quorum => never failed over, however often they report), '
+          'C07_fail_reregister_clears (after add_proxy, no new report and no replace call already in flight => not listed, not failed over; composes C18_reregister_clears; '
+          'the side condition is necessary: C07_example_fail_stale_replace).  Clause "the handler pushes metadata to the replacement" is NOT what the code does: '
+          'ReplaceNodeHandler only calls replace_proxy; the replacement is brought up to date by the meta-sync loop, i.e. by C07_converge_one_round(_broker); the check '
+          'monitors that a handling round sends nothing to proxies and that the next meta-sync round repairs a crash after replace.  The model is tied to '
           'the code by running the real coordinator rounds, a real MetaStore and real proxies under the same fault scripts and comparing, per round, the '
           'observable event trace (views fetched, calls reaching proxies with epoch and reply, commits reaching the broker with result, reports, restarts), '
           'the number of call boundaries consumed, every proxy\'s GETEPOCH and the hashes of its cluster / replication state (UMCTL INFO, INFOREPL), the '
@@ -36,7 +47,7 @@ MANIFEST = {
   'note': 'Proof at model level; closed under the global context. The *_broker theorems instantiate time as "number of broker operations applied" (a successful commit is one operation of ops); the pending-migration set of Ctrl.v stays abstract (its link to the Broker model\'s migrating entries is exercised by the correspondence check, not proved). PARTIAL for real concurrency: the four coordinator loops, their 1-second timers and the '
           'join_all over a batch of ten proxies are replaced by explicit interleaving of whole calls (with the harness fakes no call is ever pending, so a '
           'batch runs in list order); the HTTP layer between coordinator and broker is replaced by a fake that mirrors its status mapping (200 and 404 => Ok; '
-          'pinned textually); the failure detector / handler rounds only appear as broker operations.  "Destination before source" is proved and monitored '
+          'pinned textually); in C07 cases a failover is a plain broker operation; in C07F cases the real detector / handler rounds run (virtual clock: the harness rewrites the stored report timestamps before each get_failures so that real age = virtual age; ages are multiples of 10 s, ttl 30 s, quorum 2; a delayed call is treated as lost in these rounds; a down proxy only stops answering PING).  "Destination before source" is proved and monitored '
           'for the migration-sync path only (dst_before_src): when a coordinator dies between the commit and the pushes, the next meta-sync round updates '
           'the two proxies in listing order - the code gives no ordering guarantee there (observed, harmless: the importing proxy already serves the slots '
           'after the switch).  Convergence needs a served epoch > 0 (an epoch-0 view is never accepted by a fresh proxy; the broker never serves one for a '
@@ -52,6 +63,7 @@ TRUSTED = ['Coq 8.16.1 kernel (coqc; coqchk in the thorough tier); no axioms (Pr
            'extraction with ExtrOcamlBasic only + ocaml/vio.ml, d_ctrl.ml, driver_lib.ml',
            'harness/ctrl/src/dom.rs: fake MetaDataBroker / MetaManipulationBroker / RedisClientFactory (fault injection), fake Redis, canonical forms of a view and of UMCTL INFO / INFOREPL',
            'hooks: undermoon::coordinator::verif (H2), undermoon::broker::verif (H1)',
+           'Model/CtrlFail.v runs on the broker model of Model/Broker.v (its correspondence with broker/update.rs is the C18 / C06 checks\'); replacement choices and cluster allocation pairs are read from the real store',
            'textual pins: http_mani_broker.rs treats 404 as Ok; service.rs maps MigrationTaskNotFound to 404; core.rs pushes dst before src and aborts on `?`; sync.rs sends SETREPL before SETCLUSTER and treats OLD_EPOCH as success']
 
 KINDS = ['drop', 'dup', 'delay', 'noreply', 'crash']
@@ -79,6 +91,23 @@ def shape_a(faults, injects, mid=(), tail_extra=()):
 def shape_b(faults, injects, fo, mid=(), tail_extra=()):
     steps = [SHAPE_B_PRE, 'meta 1', 'config 7', 'meta 2', 'failover %d' % fo, 'meta 3'] + list(mid) + TAIL[:2] + list(tail_extra[:1]) + TAIL[2:] + list(tail_extra[1:])
     return case_line(5, faults, injects, [x for x in steps if x])
+
+
+# failure detection / handling (C07F cases: the model side also runs Model/CtrlFail.v over the real broker model).
+# 5 proxies, a cluster on 4 of them, ttl 30 s, quorum 2; coordinators 1..3 detect, coordinator 9 handles
+FAIL_PRE = SETUP4 + ' ; addproxy 5 ; addcluster 8 ; meta 1'
+FAIL_TTL, FAIL_QUORUM = 30, 2
+F_LO, F_HI = 16, 52
+
+
+def fail_case(faults, steps, tail=True):
+    f = ','.join('%d:%s' % x for x in sorted(faults.items())) or '-'
+    st = [FAIL_PRE] + [x for x in steps if x] + (TAIL if tail else [])
+    return 'C07F 5 %s - ; %s' % (f, ' ; '.join(st))
+
+
+def fail_window(x):
+    return ['down %d' % x, 'detect 1', 'tick 10', 'detect 2', 'handle 9', 'meta 3']
 
 
 # boundaries: shape A: set-up rounds use 0..25, the faulty window (mig + meta) is 26..57 in a fault-free run
@@ -119,6 +148,37 @@ def gen_cases(chk):
         k = KINDS[pos % 5] if chk.tier == 'quick' else None
         for kk in ([k] if k else KINDS):
             cases.append(('singleB', shape_b({pos: kk}, [(pos + 5, 'replay', pos)] if kk == 'delay' else [], 1 + pos % 5)))
+    # ---- failure detection / handling ----
+    for x in (1, 2, 3, 4, 5):
+        cases.append(('fail-one-reporter', fail_case({}, ['down %d' % x, 'detect 1', 'detect 1', 'tick 10', 'detect 1', 'handle 9'])))
+        cases.append(('fail-quorum', fail_case({}, fail_window(x))))
+        cases.append(('fail-expired', fail_case({}, ['down %d' % x, 'detect 1', 'tick 40', 'detect 2', 'handle 9', 'tick 10', 'detect 3', 'handle 9', 'meta 3'])))
+        cases.append(('fail-reregister', fail_case({}, ['down %d' % x, 'detect 1', 'detect 2', 'up %d' % x, 'addproxy %d' % x, 'handle 9', 'meta 3'])))
+        cases.append(('fail-crash-after-replace', fail_case({36: 'crash'}, fail_window(x))))
+        cases.append(('fail-boundary-ttl', fail_case({}, ['down %d' % x, 'detect 1', 'tick 20', 'detect 2', 'tick 10', 'handle 9', 'handle 9'])))
+    # every single-fault position of the window detect, detect, handle, meta-sync (false reports by message loss included)
+    for pos in range(F_LO, F_HI):
+        for k in (KINDS if chk.tier == 'thorough' else [KINDS[pos % 5], KINDS[(pos + 2) % 5]]):
+            cases.append(('fail-single', fail_case({pos: k}, fail_window(1 + pos % 5))))
+    nfr = 120 if chk.tier == 'quick' else 1500
+    for _ in range(nfr):
+        steps, faults = [], {}
+        for _ in range(r.randint(3, 9)):
+            w = r.random()
+            if w < 0.2:
+                steps.append('%s %d' % (r.choice(['down', 'down', 'up']), r.randint(1, 5)))
+            elif w < 0.55:
+                steps.append('detect %d' % r.randint(1, 3))
+            elif w < 0.75:
+                steps.append('handle 9')
+            elif w < 0.9:
+                steps.append('tick %d' % r.choice([10, 10, 20, 30, 40]))
+            else:
+                steps.append('addproxy %d' % r.randint(1, 5))
+        steps += ['up %d' % i for i in range(1, 6)]
+        for _ in range(r.choice([0, 1, 2, 3, 5, 8])):
+            faults[r.randrange(F_LO, F_HI + 30)] = r.choice(KINDS)
+        cases.append(('fail-random', fail_case(faults, steps)))
     # random multi-fault scripts
     nrand = 400 if chk.tier == 'quick' else 4000
     for _ in range(nrand):
@@ -279,6 +339,43 @@ def monitor(case, prog, segs, z):
         bad.append('set-up: the real migration handshake did not finish (%s)' % z.get('fm'))
     if z.get('order', 'ok') != 'ok':
         bad.append('migration-sync path pushed post-commit metadata to the source before the destination: %s' % z.get('order'))
+    # ---- failure detection / handling clauses (C07F cases) ----
+    if case.startswith('C07F'):
+        steps = [x.strip() for x in prog.split(' ; P ')[1].split(' | ')]
+        reports = []            # (time, reporter, address)
+        rereg = {}              # address -> no get_failures may list it until it is reported again
+        registered = set()
+        for j, sg in enumerate(segs):
+            d = kv(sg)
+            stp = steps[j].split(' ') if j < len(steps) else ['?']
+            T = int(d['T']) if 'T' in d and d['T'].lstrip('-').isdigit() else None
+            if stp[0] == 'adv' and 'reg' in stp:
+                a = int(stp[stp.index('reg') + 1])
+                if a in registered:
+                    rereg[a] = True
+                registered.add(a)
+            tr = d.get('tr', '-')
+            toks = [] if tr == '-' else tr.split(',')
+            listed = set()
+            is_handle = stp[0] == 'handle'
+            for t in toks:
+                p = t.split('.')
+                if p[0] == 'a':
+                    reports.append((T, int(p[1]), int(p[2])))
+                    rereg.pop(int(p[2]), None)
+                elif p[0] == 'g':
+                    for a in ([] if p[1] == '-' else [int(z_) for z_ in p[1].split('+')]):
+                        listed.add(a)
+                        fresh = set(c for (t0, c, a0) in reports if a0 == a and t0 is not None and T is not None and 0 <= T - t0 < FAIL_TTL)
+                        if len(fresh) < FAIL_QUORUM:
+                            bad.append('get_failures listed proxy %d at time %s with %d distinct reporters within ttl (quorum %d)' % (a, T, len(fresh), FAIL_QUORUM))
+                        if rereg.get(a):
+                            bad.append('proxy %d was listed as failed after it re-registered and before any new report' % a)
+                elif p[0] == 'x':
+                    if int(p[1]) not in listed:
+                        bad.append('replace_proxy called for proxy %s which the get_failures answer of this round did not list' % p[1])
+                elif is_handle and p[0] in ('d', 'f'):
+                    bad.append('the handling round sent a call to a proxy (%s)' % t)
     # routing of the probe key once nothing migrates
     for e in z.get('fin', '').split(','):
         p = e.split('|')
@@ -295,6 +392,12 @@ PINS = [
      'sync_migration_state: dst then src, each aborting on error'),
     ('/repo/src/coordinator/sync.rs', r'"SETREPL"\.to_string\(\),[\s\S]{0,200}?\.await\?;[\s\S]{0,600}?"SETCLUSTER"\.to_string\(\)', 'send_meta_impl: SETREPL, `?`, then SETCLUSTER'),
     ('/repo/src/coordinator/sync.rs', r'if err_str == OLD_EPOCH_REPLY\.as_bytes\(\) \{\s*Ok\(\(\)\)', 'send_meta: OLD_EPOCH is success'),
+    ('/repo/src/coordinator/detector.rs', r'const RETRY: usize = 3;\s*for i in 1\.\.=RETRY \{\s*match self\.ping\(address\.clone\(\)\)\.await \{\s*Ok\(None\) => return Ok\(None\),\s*_ if i == RETRY => return Ok\(Some\(address\)\),\s*_ => continue,',
+     'PingFailureDetector::check_impl: three attempts, alive on the first answer'),
+    ('/repo/src/coordinator/recover.rs', r'self\.mani_broker\s*\.replace_proxy\(proxy_failure\.clone\(\)\)\s*\.map_err\([\s\S]{0,260}?\.map_ok\(move \|new_proxy\| \{\s*info!\(',
+     'ReplaceNodeHandler::handle_proxy_failure: replace_proxy and nothing else (no push to the replacement)'),
+    ('/repo/src/coordinator/service.rs', r'let retriever = BrokerProxiesRetriever::new\(data_broker\.clone\(\)\);\s*let checker = PingFailureDetector::new\(client_factory\);\s*let reporter = BrokerFailureReporter::new\(reporter_id, data_broker\);',
+     'gen_detector is assembled from the parts the harness assembles'),
     ('/repo/src/coordinator/service.rs', r'BrokerOrderedProxiesRetriever::new\(data_broker\.clone\(\)\);\s*let meta_retriever = BrokerMetaRetriever::new\(data_broker\);\s*let sender = ProxyMetaRespSender::new',
      'gen_proxy_meta_synchronizer is assembled from the parts the harness assembles'),
 ]
